@@ -123,3 +123,24 @@ def fubini(ctx, joint, nested):
            ("sigma.fubini-inner-range", z3.Implies(z3.And(vy >= ly, vy < hy), z3.And(lx == z3.substitute(lwx, *sub), hx == z3.substitute(hwx, *sub)))),
            ("sigma.fubini-summands-equal", z3.Implies(in_range(rj), bj == bi2))]
     return obl, joint == nested
+
+
+def partition(ctx, nested, flat, cls, offset=0):
+    """sum_i sum_k [cls(k) == i + offset] g(k)  ==  sum_k g(k)   when every k of the range falls into exactly one class i of the outer range.
+    `nested` is a Sum whose summand is a Sum; `flat` a Sum over k with body g(k); cls maps the inner bound variable to its class term."""
+    rn, bn = instantiate(ctx, nested)
+    rf, bf = instantiate(ctx, flat)
+    inner = find_sums(bn)
+    if len(rn) != 1 or len(rf) != 1 or len(inner) != 1:
+        return [("sigma.partition-shape", z3.BoolVal(False))], z3.BoolVal(True)
+    ri, bi = instantiate(ctx, inner[0])
+    (vi, li, hi) = rn[0]
+    (vk, lk, hk) = ri[0]
+    (vf, lf, hf) = rf[0]
+    bf2 = z3.substitute(bf, (vf, vk))
+    c = cls(vk)
+    obl = [("sigma.partition-inner-range", z3.Implies(z3.And(vi >= li, vi < hi), z3.And(lk == lf, hk == hf))),
+           ("sigma.partition-outer-summand-is-the-inner-sum", z3.Implies(z3.And(vi >= li, vi < hi), bn == inner[0])),
+           ("sigma.partition-inner-summand-is-the-class-indicator", z3.Implies(z3.And(vi >= li, vi < hi, vk >= lk, vk < hk), bi == z3.If(c == vi + offset, bf2, z3.RealVal(0)))),
+           ("sigma.partition-every-element-in-exactly-one-class", z3.Implies(z3.And(vk >= lk, vk < hk), z3.And(c - offset >= li, c - offset < hi)))]
+    return obl, nested == flat
